@@ -403,6 +403,19 @@ theorem handleSleepDecision_spec (act : SleepDecision) (a d : Nat) :
       | (simp_all +zetaDelta [view, decisionStop]; done)
       | skip)
 
+theorem modifyAS_v (f : AState → AState) :
+    ⦃fun w => ⌜view cfg w = v⌝⦄ modifyAS f ⦃post⟨fun _ w => ⌜view cfg w = v⌝, fun _ _ => ⌜False⌝⟩⦄ := by
+  mvcgen [modifyAS]
+  all_goals (subst_vars; simp_all +zetaDelta [view])
+
+theorem getRS_v :
+    ⦃fun w => ⌜view cfg w = v⌝⦄ getRS
+    ⦃post⟨fun r w => ⌜view cfg w = v ∧ r.lastStop = v.lastStop ∧ r.lastClass = v.lastClass ∧
+            r.lastExc = v.lastExc ∧ r.lastResult = v.lastResult ∧ r.lastCause = v.lastCause⌝,
+          fun _ _ => ⌜False⌝⟩⦄ := by
+  mvcgen [getRS]
+  all_goals (subst_vars; simp_all +zetaDelta [view])
+
 end leaves
 
 attribute [local spec] emit_i callBeforeSleep_i budgetConsume_i callAttemptStart_h callAttemptEnd_h
@@ -913,7 +926,8 @@ theorem checkAbort_idle (cfg : Cfg) (tl : Bool) (a : Nat) (u : View) (hp : u.mon
   have hi := pollStep_idle cfg u.mon hp
   mvcgen [hc]
   all_goals ((try subst_vars) <;> (try intros))
-  all_goals (try (simp_all +zetaDelta [sameBut]; done))
+  all_goals (try (simp_all +zetaDelta; done))
+  all_goals (try exact ⟨by assumption, by assumption, by assumption⟩)
 
 /-- the sleep phase and the attempt's verdict, once the failure is recorded -/
 theorem failureOutcome_rec (cfg : Cfg) (tl : Bool) (n a : Nat) (d : Decision) (cls : Option Classification)
